@@ -212,3 +212,68 @@ def _pair_one(chk, label, kind, pi, res):
 
 def obligations(chk):
     pair_obligations(chk)
+
+
+# ----------------------------------------------------------------------------- the two dispatch tables pair up
+# order facts the first-match dispatch relies on (each from a subsumption between the classes the predicates accept):
+PRECEDES = [
+    ("isforwardref", "*"), ("isunresolvable", "*rest"), ("isnonetype", "*rest"),
+    ("isliteral", "isuniontype"),           # Literal is answered before unions (isoptionaltype also accepts Literal[..., None])
+    ("isuniontype", "isenumtype"),
+    # an Enum with a data-type mixin (str, int, ...) also satisfies the scalar predicates: by value, not by text
+    ("isenumtype", "isstringtype"), ("isenumtype", "isbytestype"), ("isenumtype", "isnumbertype"), ("isenumtype", "isintegertype"),
+    ("isenumtype", "isfloattype"), ("isenumtype", "isdecimaltype"), ("isenumtype", "isfractiontype"),
+    ("isdatetimetype", "isdatetype"),       # datetime is a subclass of date
+    ("istypeddict", "ismappingtype"), ("istypedtuple", "isfixedtupletype"), ("isnamedtuple", "isfixedtupletype"),
+    ("istypedtuple", "isiterabletype"), ("isnamedtuple", "isiterabletype"),
+    ("isfixedtupletype", "isiterabletype"), ("ismappingtype", "isiterabletype"), ("isiteratortype", "isiterabletype"),
+    ("isstringtype", "isiterabletype"), ("isbytestype", "isiterabletype"),
+]
+
+
+def table_obligations(chk):
+    """Both `_HANDLERS` tables (read from the source) answer the overlapping predicates in the order the subsumptions demand,
+    and they agree on that order, so a type is routed to the same kind of routine in both directions."""
+    import ast
+    from pyvc.interp import Interp
+    from pyvc.builtins_model import install
+    I = install(Interp())
+    orders = {}
+    for mod in (R.UN.replace(".routines", ".api"), R.MA.replace(".routines", ".api")):
+        node = None
+        for st in I.src.toplevel(mod):
+            tg = st.targets[0] if isinstance(st, ast.Assign) else getattr(st, "target", None)
+            if isinstance(st, (ast.Assign, ast.AnnAssign)) and isinstance(tg, ast.Name) and tg.id == "_HANDLERS":
+                node = st.value
+        order = []
+        for k in (node.keys if isinstance(node, ast.Dict) else []):
+            names = [n.attr for n in ast.walk(k) if isinstance(n, ast.Attribute) and isinstance(n.value, ast.Name) and n.value.id == "inspection"]
+            # a lambda `issubscriptedgeneric(t) and ismappingtype(t)` counts as its discriminating predicate
+            names = [n for n in names if n != "issubscriptedgeneric"] or names
+            order.append(names[0] if names else ast.unparse(k))
+        orders[mod] = order
+        pos = {n: i for i, n in reversed(list(enumerate(order)))}
+        bad = []
+        for a, b in PRECEDES:
+            if a not in pos:
+                continue
+            if b == "*":
+                if pos[a] != 0:
+                    bad.append(f"{a} is not the first entry")
+            elif b == "*rest":
+                later_special = [x for x in ("isliteral", "isuniontype", "isenumtype") if x in pos and pos[x] < pos[a]]
+                if later_special:
+                    bad.append(f"{a} comes after {later_special}")
+            elif b in pos and not pos[a] < pos[b]:
+                bad.append(f"{a} must be answered before {b}")
+        chk.add(Ob(f"{mod}._HANDLERS", "overlapping-predicates-are-answered-in-subsumption-order", "ast", [], z3.BoolVal(not bad), {"violations": bad, "order": order}))
+    (m1, o1), (m2, o2) = orders.items()
+    shared = [n for n in o1 if n in o2]
+    agree = shared == [n for n in o2 if n in o1]
+    chk.add(Ob("typelib.*.api._HANDLERS", "both-directions-answer-the-shared-predicates-in-the-same-order", "ast", [], z3.BoolVal(agree),
+               {"unmarshal": o1, "marshal": o2}))
+
+
+def obligations(chk):          # noqa: F811  (extends the pair steps with the dispatch-table pairing)
+    pair_obligations(chk)
+    table_obligations(chk)
